@@ -7,7 +7,8 @@ G2 = ["RX", "RY"]
 Q = [0, 1]
 GATE_HEADERS = {"hf": ("DEFCAL {g} {q}:", {"g": ("str", G2), "q": ("int", Q)}),
                 "hv": ("DEFCAL {g} v:", {"g": ("str", G2)}),
-                "hpv": ("DEFCAL {g}(%t) v:", {"g": ("str", G2)})}
+                "hpv": ("DEFCAL {g}(%t) v:", {"g": ("str", G2)}),
+                "hfv": ("DEFCAL {g} {q} v:", {"g": ("str", G2), "q": ("int", Q)})}
 GATE_BODIES = {"x": (["{h} v"], {"h": ("str", G2)}),
                "xfixed": (["{h} {r}"], {"h": ("str", G2), "r": ("int", Q)}),
                "grow": (["{h}(%t+1) v"], {"h": ("str", G2)}),
@@ -17,6 +18,8 @@ GATE_BODIES = {"x": (["{h} v"], {"h": ("str", G2)}),
                "reset": (["RESET v"], {}),
                "decl-x": (["DECLARE tmp REAL[1]", "{h} v"], {"h": ("str", G2)}),
                "x-fence": (["{h} v", "FENCE v"], {"h": ("str", G2)}),
+               "fence-x-fence": (["FENCE v", "{h} v", "FENCE v"], {"h": ("str", G2)}),
+               "three": (["FENCE v", "RESET v", "FENCE v"], {}),
                "pulse": (['PULSE v "rf" ' + WF], {})}
 MEAS_HEADERS = {"mv": ("DEFCAL MEASURE v addr:", {}), "mf": ("DEFCAL MEASURE {q} addr:", {"q": ("int", Q)})}
 MEAS_BODIES = {"cap-addr": (['CAPTURE v "ro" ' + WF + " addr[0]"], {}),
@@ -24,7 +27,7 @@ MEAS_BODIES = {"cap-addr": (['CAPTURE v "ro" ' + WF + " addr[0]"], {}),
                "loadmem": (['PRAGMA LOAD-MEMORY v "addr"'], {}),
                "fence": (["FENCE v"], {})}
 BODY = [Tpl("g", "{g} {q}", g=("str", G2), q=("int", Q)), Tpl("gp", "{g}(2.0) {q}", g=("str", G2), q=("int", Q)),
-        Tpl("m", "MEASURE {q} ro[1]", q=("int", Q)), Tpl("h", "H 1")]
+        Tpl("m", "MEASURE {q} ro[1]", q=("int", Q)), Tpl("h", "H 1"), Tpl("g2", "{g} {q} {r}", g=("str", G2), q=("int", Q), r=("int", Q))]
 
 
 def make_cal_templates():
@@ -39,7 +42,7 @@ def make_cal_templates():
 
 
 CALS = make_cal_templates()
-QUICK_CALS = [t for t in CALS if t.name.split("|")[1] in ("x", "grow", "fence", "shift", "meas", "decl-x", "cap-addr", "cap-other", "loadmem")]
+QUICK_BODIES = ("x", "grow", "fence", "shift", "meas", "decl-x", "cap-addr", "cap-other", "loadmem")
 
 
 class Recursive(Exception):
@@ -195,12 +198,12 @@ def check_queries(req, sm, n_src, n_out, list_sources, list_targets, label=""):
         if loc[0] == "Unmodified": return loc[1][0][1][0] == t
         rng = loc[1][0][1][1]
         return rng[1][0][1][0] <= t < rng[1][1][1][0]
-    for t in range(n_out):
+    for t in range(n_out + 1):         # n_out itself is one past the output: no location covers it
         srcs = {x[1][0] for x in list_sources[t]}
         for s in range(n_src):
             fwd = any(covers(loc, t) for loc in list_targets[s])
             req("sm:queries-inverse", label, (s in srcs) == fwd)
-        req("sm:every-target-has-one-source", label, len(srcs) == 1)
+        if t < n_out: req("sm:every-target-has-one-source", label, len(srcs) == 1)
 
 
 # ---------------------------------------------------------------------------------------------------- driver
@@ -220,21 +223,41 @@ class CalibCheck(Check):
     prop = "C17"
     DEPTH = 140
 
+    quick_bodies = QUICK_BODIES
+    quick_headers = tuple(GATE_HEADERS) + tuple(MEAS_HEADERS)
+
+    thorough_bodies = thorough_headers = None          # None = all
+    sorted_shapes = {}
+    quick_body = None
+
+    def body_templates(self, tier):
+        return [t for t in BODY if tier != "quick" or self.quick_body is None or t.name in self.quick_body]
+
+    def shapes(self, tier):
+        bodies, headers = (self.quick_bodies, self.quick_headers) if tier == "quick" else (self.thorough_bodies, self.thorough_headers)
+        return [t for t in CALS if (bodies is None or t.name.split("|")[1] in bodies) and (headers is None or t.name.split("|")[0] in headers)]
+
     def bounds(self, tier):
-        cs = QUICK_CALS if tier == "quick" else CALS
-        return {"calibrations": f"<= {self.K[tier]}", "body": f"<= {self.N[tier]}", "calibration_shapes": [t.name for t in cs], "body_shapes": [t.name for t in BODY]}
+        cs = self.shapes(tier)
+        return {"calibrations": f"<= {self.K[tier]}", "body": f"<= {self.N[tier]}", "calibration_shapes": [t.name for t in cs], "body_shapes": [t.name for t in self.body_templates(tier)],
+                "calibration_order": "shape indices non-decreasing (symmetry reduction)" if self.sorted_shapes.get(tier) else "any"}
 
     def setup(self, world, runner, tier):
         self.td = world.td
-        self.cals = QUICK_CALS if tier == "quick" else CALS
+        self.cals = self.shapes(tier)
         parse_templates(runner, world.td, self.cals + BODY)
 
     def build(self, m):
         td = m.td
         k = m.choose([(j, None) for j in range(1, self.K[m.tier] + 1)])
-        shapes = [m.choose([(t.name, None) for t in self.cals]) for _ in range(k)]
+        shapes, lo = [], 0
+        names = [t.name for t in self.cals]
+        for _ in range(k):
+            s = m.choose([(x, None) for x in names[lo:]])
+            shapes.append(s)
+            if self.sorted_shapes.get(m.tier): lo = names.index(s)        # symmetry reduction: definition order is C16's subject
         n = m.choose([(j, None) for j in range(1, self.N[m.tier] + 1)])
-        bnames = [m.choose([(t.name, None) for t in BODY]) for _ in range(n)]
+        bnames = [m.choose([(t.name, None) for t in self.body_templates(m.tier)]) for _ in range(n)]
         m.ctx = {"shapes": shapes, "body": bnames}
         by = {t.name: t for t in self.cals + BODY}
         prog = m.call_path("Program::new", [])
@@ -276,7 +299,7 @@ class CalibCheck(Check):
                     o["source_map"] = to_tree(m, sm)
                     n_out, n_src = len(o["body"]), len(cell[0].fields[pidx.index("instructions")].items)
                     ii = lambda x: Ref([Agg("InstructionIndex", None, [x])], 0)
-                    o["list_sources"] = [to_tree(m, m.call_path("SourceMap::<InstructionIndex, ExpansionResult<CalibrationExpansion>>::list_sources::<InstructionIndex>", [Ref([sm], 0), ii(t)])) for t in range(n_out)]
+                    o["list_sources"] = [to_tree(m, m.call_path("SourceMap::<InstructionIndex, ExpansionResult<CalibrationExpansion>>::list_sources::<InstructionIndex>", [Ref([sm], 0), ii(t)])) for t in range(n_out + 1)]
                     o["list_targets"] = [to_tree(m, m.call_path("SourceMap::<InstructionIndex, ExpansionResult<CalibrationExpansion>>::list_targets::<InstructionIndex>", [Ref([sm], 0), ii(s)])) for s in range(n_src)]
                 obs[key] = o
         finally:
